@@ -18,3 +18,31 @@ Theorem C04_wildcard_capture_separator_free :
   forall orbit cap s e lz w, sem orbit (enc_leaf cap s e (LZom lz)) w -> nosep w = true.
 Proof. intros orbit cap s e lz w. exact (proj1 (zom_sem orbit cap s e lz w)). Qed.
 Print Assumptions C04_wildcard_capture_separator_free.
+
+From WaxProofs Require Import MatcherFacts CaptureFacts.
+Local Open Scope nat_scope.
+
+(* the assignment of captures is consistent, for every glob whose top-level tokens are not themselves concatenations (all
+   parsed globs), every path and *every* parse the engine can end with (any final continuation: the leftmost-first parse of
+   the model engine as well as any other parse - the regex crate reorders priorities by lifting common prefixes out of
+   alternations, and the correspondence check accepts its assignment only if the model engine finds a parse with it):
+   the path splits into one text per top-level token, each matched by its own token; a capturing token other than a tree
+   wildcard recorded exactly its text in its own group, a tree wildcard nothing or a span inside its text; groups are
+   numbered in token order, so captures are ordered, do not overlap, and the text between them is the text of the tokens
+   between *)
+Theorem C04_captures_are_a_consistent_assignment : forall orbit t fuel w k x, flat_top t ->
+  m orbit (length w) fuel (encode t) 0 w [] k = Some x ->
+  exists us v c', w = concat us ++ v /\
+    Forall2 (fun t u => exists s' e', sem orbit (enc_tok true t s' e') u) (concatenation t) us /\
+    k v c' = Some x /\ assigned (concatenation t) 0 0 us c'.
+Proof. exact glob_captures_valid. Qed.
+Print Assumptions C04_captures_are_a_consistent_assignment.
+
+(* what the engine records: groups of a sub-expression are only set inside the text it matched, other groups are left alone,
+   and a capturing group records exactly the text of what it wraps *)
+Theorem C04_engine_captures : forall orbit fuel total r g w c k x, length w <= total -> m orbit total fuel r g w c k = Some x ->
+  exists u v c', w = u ++ v /\ sem orbit r u /\ k v c' = Some x /\
+    eff g (ngroups r) (total - length w) (total - length v) c c' /\
+    (forall a, r = RGroup true a -> get_cap g c' = Some (total - length w, total - length v)).
+Proof. exact m_caps. Qed.
+Print Assumptions C04_engine_captures.
